@@ -9,9 +9,11 @@ def run(ctx):
                 "C02: psf = k0 of the REQUESTED projection on the central meridian (8 decimals), convergence 0 on both axes, sign table, "
                 "forward and inverse report the same two values, mirror parity, psf/k0 and convergence independent of fe/fn/k0, psf "
                 "independent of the size of the ellipsoid; distinct = distinct inputs")
-    ctx.assumptions += ["NOT decided: the 1e-9 deg convergence and 2e-8 scale factor against the exact projection OFF the axes "
-                        "(finite differences are limited by the 0.1 mm output rounding); there the forward/inverse, parity and scaling "
-                        "laws are necessary conditions only"]
+    ctx.assumptions += ["off the axes the scale factor (2e-8) and the convergence (1e-9 deg) are decided against the exact projection of the "
+                        "specification (KruegerTM: psf from the Krueger series' derivatives, convergence atan(tau' tan dl / sqrt(1 + tau'^2))) "
+                        "at Pythagorean latitude x longitude-difference points (TM events); elsewhere the forward/inverse, parity and "
+                        "scaling laws tie the sampled positions to them (finite differences were not built: the 0.1 mm output rounding "
+                        "limits them to 3e-7 deg)"]
 
 
 def replay(ctx, data):
